@@ -206,11 +206,13 @@ def stepDecB (s : St) (u : UnitId) (p : PoolId) : Option St :=
 /-- `ABTI_ythread_callback_resume_suspend_to` when both units use the same pool: no counter update at all; the
 increment that counted the resumed unit now counts the caller, which is about to store BLOCKED -/
 def stepXferB (s : St) (frm to : UnitId) : Option St :=
-  if frm ≠ to ∧ s.charged frm = true ∧ s.charged to = false ∧ s.chargedPool frm = s.pool to ∧
-      (frm, s.chargedPool frm) ∈ s.owedL ∧ (match s.loc to with | .cb _ => true | _ => false) = true ∧
-      s.loc frm ≠ .blocked then
-    some { s with owedL := (to, s.pool to) :: s.owedL.erase (frm, s.chargedPool frm),
-                  charged := upd (upd s.charged frm false) to true,
+  -- `frm` has just been resumed by `to` (its own decrement is still outstanding: a lagging credit); `to` is in its
+  -- suspension callback and has not been counted
+  if frm ≠ to ∧ s.lag frm > 0 ∧ s.charged frm = false ∧ s.charged to = false ∧ (frm, s.pool to) ∈ s.owedL ∧
+      (match s.loc to with | .cb _ => true | _ => false) = true then
+    some { s with owedL := (to, s.pool to) :: s.owedL.erase (frm, s.pool to),
+                  lag := upd s.lag frm (s.lag frm - 1),
+                  charged := upd s.charged to true,
                   chargedPool := upd s.chargedPool to (s.pool to) }
   else none
 
